@@ -208,12 +208,15 @@ func VH_C01_WriteRead() {
 	vmode("int")
 	n := 1 + choose(2)
 	corpus := vc01Corpus()
-	k := choose(len(corpus)) // which texts: every corpus entry appears as first line of the first cue
+	kc := choose(vbound("timeclasses", 24, 24)) // digit-shape class of the timestamps
+	k := kc % len(corpus)                         // which texts: every corpus entry appears as first line of the first cue
 	s := NewSubtitles()
 	var model []vcueModel
 	for c := 0; c < n; c++ {
 		st := nondetInt64(0, 100*3600*1000000000-1) // nanoseconds: the writer truncates to ms
 		en := nondetInt64(0, 100*3600*1000000000-1)
+		vtimeClass(st, (kc*7+c)%24)
+		vtimeClass(en, (kc*11+5*c+3)%24)
 		nl := 1 + (k+c)%2
 		var lines []vtextLine
 		for l := 0; l < nl; l++ {
@@ -322,4 +325,39 @@ func VH_C01_Escaping() {
 	u := unescapeHTML(e)
 	vassert(veqstr(u, s), "C01 escape: unescape(escape(s)) == s")
 	vreach("end")
+}
+
+// vtimeClass constrains a nanosecond instant to one of the 24 digit-shape classes of the textual timestamp writer
+// (hours < 10 or not, minutes < 10 or not, seconds < 10 or not, milliseconds < 10, < 100 or not), so that a write
+// harness explores each class once per timestamp instead of the product over all timestamps of a document
+// (timestamps are rendered by independent calls of a pure function).
+func vtimeClass(ns int64, class int) {
+	h := ns / 3600000000000
+	m := ns / 60000000000 % 60
+	sec := ns / 1000000000 % 60
+	ms := ns / 1000000 % 1000
+	if class&1 == 0 {
+		vassume(h < 10)
+	} else {
+		vassume(h >= 10)
+	}
+	if class&2 == 0 {
+		vassume(m < 10)
+	} else {
+		vassume(m >= 10)
+	}
+	if class&4 == 0 {
+		vassume(sec < 10)
+	} else {
+		vassume(sec >= 10)
+	}
+	switch class / 8 % 3 {
+	case 0:
+		vassume(ms < 10)
+	case 1:
+		vassume(ms >= 10)
+		vassume(ms < 100)
+	default:
+		vassume(ms >= 100)
+	}
 }
